@@ -791,3 +791,27 @@ func init() {
 			planItem{register(worldScenario("C07", specKeyPersistedCancel, ikOracle)), 1, 2})
 	}
 }
+
+// C10: metadata writes on the transaction a revert is working on, and a second revert afterwards (funds for both are there):
+// whatever the writes on T leave behind in the engine, T is reverted once
+var specRevertMetaRevert = worldSpec{Name: "revert-meta-revert",
+	Seed: seedTxs(ledger.Postings{post("world", "a", 10)}, ledger.Postings{post("world", "a", 10)}),
+	Gen1: []reqSpec{{Name: "r0a", Kind: "revert", TxID: 0},
+		{Name: "m0", Kind: "savemeta", TargetType: ledger.MetaTargetTypeTransaction, TargetID: big.NewInt(0)},
+		{Name: "r0b", Kind: "revert", TxID: 0}},
+	Gen2: []reqSpec{{Name: "r0c", Kind: "revert", TxID: 0}}}
+
+var specRevertDelMetaRevert = worldSpec{Name: "revert-delmeta-revert-forced",
+	Seed: seedTxs(ledger.Postings{post("world", "a", 10)}),
+	Gen1: []reqSpec{{Name: "r0a", Kind: "revert", TxID: 0, Force: true},
+		{Name: "d0", Kind: "delmeta", TargetType: ledger.MetaTargetTypeTransaction, TargetID: big.NewInt(0), Key: "d0"},
+		{Name: "r0b", Kind: "revert", TxID: 0, Force: true}}}
+
+func init() {
+	b10 := plans["C10"]
+	plans["C10"] = func() []planItem {
+		return append(b10(),
+			planItem{register(worldScenario("C10", specRevertMetaRevert, revertOracle)), 2, 3},
+			planItem{register(worldScenario("C10", specRevertDelMetaRevert, revertOracle)), 2, 3})
+	}
+}
